@@ -6,6 +6,7 @@ import random
 from .. import astx
 from ..astx import C, N, attr, lam
 from ..core import REPO
+from .. import modgen
 from ..typedmodel import Model
 
 N_CASES = {"quick": 600, "thorough": 500000}
@@ -302,6 +303,84 @@ def run_case(ctx, rnd, model, ds, i):
         ctx.sample({"lambda": text, "emitted": astx.unparse(out), "call_sites": g.sites})
 
 
+REG_SRC = modgen.DS_HEADER + '''
+from typing import Iterable
+from func_adl import func_adl_callable
+class Jet:
+    def pt(self) -> float: ...
+class Evt:
+    def met(self) -> float: ...
+    def jets(self) -> Iterable[Jet]: ...
+# a declaration that is run again (a notebook cell, a reloaded module): same name, new function object, other defaults; the
+# function has a python body of its own, as a helper would
+def declare(k):
+    @func_adl_callable()
+    def calibrated_c07(pt: float, scale: float = 1.0 + k / 100, mode: str = "m%d" % k) -> float: return pt * scale
+    return calibrated_c07
+def declare_other(k):
+    @func_adl_callable()
+    def smeared_c07(pt: float, width: float = 2.0 + k / 100) -> float: ...
+    return smeared_c07
+def q_nested(ds, calibrated_c07): return ds.Select(lambda e: e.jets().Select(lambda j: calibrated_c07(j.pt())))
+def q_top(ds, calibrated_c07): return ds.Select(lambda e: calibrated_c07(e.met(), mode="x"))
+def q_alias(ds, fn): return ds.Select(lambda e: e.jets().Select(lambda j: fn(scale=3.0, pt=j.pt())))
+def q_text(ds, unused): return ds.Select("lambda e: e.jets().Select(lambda j: calibrated_c07(j.pt()))")
+'''
+
+
+def registry_history(ctx, nhist=12):
+    """registered functions have a history: declared again under the same name, the registry emptied with reset_global_functions()
+    and filled again; queries from python lambdas in a file and from text. Whatever happened before, the call in the emitted query
+    carries every declared parameter of the function now in force"""
+    from func_adl.type_based_replacement import reset_global_functions
+
+    m = modgen.load(REG_SRC, "c07r")
+    for h in range(nhist):
+        rnd = random.Random(ctx.seed * 7177 + ctx.shard * 131 + h)
+        reset_global_functions()
+        cur, k, trace = None, 0, []
+        for step in range(rnd.randint(5, 14)):
+            r = rnd.random() if step else 0.0
+            if r < 0.25:
+                k += 1
+                cur = (m.declare(k), k)
+                trace.append(f"declare #{k}")
+                continue
+            if r < 0.32:
+                m.declare_other(k)
+                trace.append("declare another function")
+                continue
+            if r < 0.4:
+                reset_global_functions()
+                cur = None
+                trace.append("reset_global_functions()")
+                continue
+            if cur is None:
+                continue
+            fn, kk = cur
+            qname = rnd.choice(["q_nested", "q_top", "q_alias", "q_text"])
+            trace.append(qname)
+            ctx.case(f"registry-history:{h}:{step}:{qname}", True)
+            ctx.count("registry-history-queries")
+            w = {"registry_history": True}
+            try:
+                s = getattr(m, qname)(m.DS(m.Evt), fn)
+            except Exception as e:
+                ctx.violation(f"registry-history:exc:{type(e).__name__}", f"{' ; '.join(trace)}: {type(e).__name__}: {str(e)[:200]}", w)
+                break
+            text = astx.unparse(s.query_ast.args[1])
+            d, md = 1.0 + kk / 100, f"m{kk}"
+            want = {"q_nested": f"calibrated_c07(j.pt(), {d!r}, {md!r})", "q_text": f"calibrated_c07(j.pt(), {d!r}, {md!r})", "q_top": f"calibrated_c07(e.met(), {d!r}, 'x')",
+                    "q_alias": f"calibrated_c07(j.pt(), 3.0, {md!r})"}[qname]
+            if want not in text:
+                ctx.violation("registry-history:call-of-the-function-in-force-not-normalised", f"history {' ; '.join(trace)}: expected {want} in {text[:240]}", w)
+                break
+    reset_global_functions()
+    modgen.unload(m)
+    modgen.cleanup()
+    ctx.count("registry-histories", nhist)
+
+
 def shard_main(ctx):
     from func_adl import EventDataset
 
@@ -309,6 +388,8 @@ def shard_main(ctx):
         async def execute_result_async(self, a, title=None):
             return a
 
+    if ctx.shard in (0, 2, 4):
+        registry_history(ctx)
     n = N_CASES[ctx.tier]
     per_model = 40
     i = 0
@@ -339,6 +420,9 @@ def replay(ctx, witness):
         async def execute_result_async(self, a, title=None):
             return a
 
+    if witness.get("registry_history"):
+        registry_history(ctx)
+        return
     ns = {}
     exec(compile(witness["model"], "<replay-model>", "exec"), ns)
     ds = DS(ns["Event"])
